@@ -88,6 +88,7 @@ FramingFields(r) ==
 TrailerNames(r) == JoinWith([k \in 1 .. Len(r.trailers) |-> r.trailers[k].name], ", ")
 
 Head_(r) ==
+    IF r.raw # "" THEN r.raw ELSE      \* a literal (malformed) request: these bytes, no body
     r.method \o " " \o r.target \o " HTTP/" \o r.ver \o CRLF
     \o ConcatStr([k \in 1 .. Len(r.fields) |-> FieldLine(r.fields[k])])
     \o ConcatStr([k \in 1 .. Len(FramingFields(r)) |-> FieldLine(FramingFields(r)[k])])
@@ -108,7 +109,8 @@ ChunkSegs(r, i, cs, a) ==
          \o ChunkSegs(r, i, Tail(cs), a + Head(cs))
 
 BodySegs(r, i) ==
-    CASE r.framing = "none" -> << >>
+    CASE r.raw # "" -> << >>
+      [] r.framing = "none" -> << >>
       [] r.framing = "cl"   -> IF r.bodyLen = 0 THEN << >> ELSE <<BodyPiece(r, i, 0, r.bodyLen)>>
       [] r.framing = "chunked" ->
            ChunkSegs(r, i, r.chunks, 0)
@@ -117,12 +119,13 @@ BodySegs(r, i) ==
                     \o CRLF)>>
 
 WellFormedReq(r) ==
-    /\ r.framing \in {"none", "cl", "chunked"}
-    /\ r.framing = "none" => r.bodyLen = 0
-    /\ r.framing = "chunked" => (Sum(r.chunks) = r.bodyLen /\ \A k \in DOMAIN r.chunks : r.chunks[k] > 0)
-    /\ r.framing # "chunked" => (r.chunks = << >> /\ r.trailers = << >>)
-    /\ r.expect100 => r.framing # "none"
-    /\ r.bodyLit # "" => Len(r.bodyLit) = r.bodyLen
+    r.raw # "" \/
+    (/\ r.framing \in {"none", "cl", "chunked"}
+     /\ r.framing = "none" => r.bodyLen = 0
+     /\ r.framing = "chunked" => (Sum(r.chunks) = r.bodyLen /\ \A k \in DOMAIN r.chunks : r.chunks[k] > 0)
+     /\ r.framing # "chunked" => (r.chunks = << >> /\ r.trailers = << >>)
+     /\ r.expect100 => r.framing # "none"
+     /\ r.bodyLit # "" => Len(r.bodyLit) = r.bodyLen)
 
 EncodeReq(r, i) == <<Lit(Head_(r))>> \o BodySegs(r, i)
 
